@@ -147,7 +147,12 @@ class JaxtypingTransformer(ast.NodeVisitor):
             elif isinstance(child, ast.Expr) and isinstance(child.value, ast.Constant):
                 continue  # module docstring
             else:
-                node.body.insert(i, ast.Import(names=[ast.alias("jaxtyping", None)]))
+                import_node = ast.Import(names=[ast.alias("jaxtyping", None)])
+                # The position `ast.fix_missing_locations` would give it.
+                for new_node in (import_node, import_node.names[0]):
+                    new_node.lineno = new_node.end_lineno = 1
+                    new_node.col_offset = new_node.end_col_offset = 0
+                node.body.insert(i, import_node)
                 break
 
         self._parents.append(node)
@@ -155,11 +160,31 @@ class JaxtypingTransformer(ast.NodeVisitor):
         self._parents.pop()
         return node
 
+    def generic_visit(self, node: ast.AST):
+        # Definitions are statements, and only statements can contain them, so only
+        # statement lists are walked: not expressions, and nested statements without
+        # recursion. Machine-generated modules (a sum with several hundred terms, a
+        # long `elif` ladder) compile fine but are nested deeper than the recursion
+        # limit allows a recursive walk to go.
+        todo = [node]
+        while todo:
+            current = todo.pop()
+            for _, value in ast.iter_fields(current):
+                if isinstance(value, list):
+                    for item in value:
+                        if isinstance(item, (ast.FunctionDef, ast.ClassDef)):
+                            self.visit(item)
+                        elif isinstance(
+                            item, (ast.stmt, ast.excepthandler, ast.match_case)
+                        ):
+                            todo.append(item)
+
     def visit_ClassDef(self, node: ast.ClassDef):
         # Place at the start of the decorator list, so that `@dataclass` decorators get
         # called first.
         decorator = self._typechecker.get_ast()
         ast.copy_location(decorator, node)
+        ast.fix_missing_locations(decorator)
         node.decorator_list.insert(0, decorator)
         self._parents.append(node)
         self.generic_visit(node)
@@ -176,6 +201,7 @@ class JaxtypingTransformer(ast.NodeVisitor):
 
         decorator = self._typechecker.get_ast()
         ast.copy_location(decorator, node)
+        ast.fix_missing_locations(decorator)
         # Place at the end of the decorator list, because:
         # - as otherwise we wrap e.g. `jax.custom_{jvp,vjp}` and lose the ability
         #     to `defjvp` etc.
@@ -214,8 +240,8 @@ class _JaxtypingLoader(SourceFileLoader):
             dont_inherit=True,
             optimize=_optimize,
         )
+        # (Every node the transformer adds comes with its location filled in.)
         tree = JaxtypingTransformer(typechecker=self._typechecker).visit(tree)
-        ast.fix_missing_locations(tree)
         return _call_with_frames_removed(
             compile, tree, path, "exec", dont_inherit=True, optimize=_optimize
         )
